@@ -222,3 +222,147 @@ Definition bm_case_eqb (a b : bm_case_out) : bool :=
   list_eqb bm_obs_eqb o1 o2 &&
   list_eqb (fun x y => val_eqb (fst (fst x)) (fst (fst y)) && bytes_eqb (snd (fst x)) (snd (fst y)) && Z.eqb (snd x) (snd y)) i1 i2 &&
   Nat.eqb (length r1) (length r2) && sub_list r1 r2 && sub_list r2 r1.
+
+(* ================================================================ a store of big_map values
+   Several big_map values live on the stack / in the storage at once: DUP copies a value, every value
+   carries its own id and reads the on-chain content of THAT id.  [chain] now takes the id. *)
+Section Store.
+  Variables K V H : Type.
+  Variable eqb : K -> K -> bool.
+  Variable ltb : K -> K -> bool.
+  Variable kh : K -> H.
+  Variable chain : Z -> H -> option V.
+
+  Record bmv := { bv_id : Z; bv_map : bigmap K V }.
+
+  Fixpoint set_nth {A} (i : nat) (x : A) (l : list A) : list A :=
+    match l, i with
+    | [], _ => []
+    | _ :: r, O => x :: r
+    | y :: r, S j => y :: set_nth j x r
+    end.
+
+  Fixpoint del_nth {A} (i : nat) (l : list A) : list A :=
+    match l, i with
+    | [], _ => []
+    | _ :: r, O => r
+    | y :: r, S j => y :: del_nth j r
+    end.
+
+  Inductive s_op :=
+  | SOUpdate (i : nat) (k : K) (vo : option V)    (* UPDATE / GET_AND_UPDATE on the value in slot i *)
+  | SODup (i : nat)                               (* DUP: a copy of slot i is appended *)
+  | SODrop (i : nat).                             (* DROP of slot i *)
+
+  Definition bv_update (k : K) (vo : option V) (b : bmv) : option V * bmv :=
+    let r := bm_update eqb ltb kh (chain (bv_id b)) k vo (bv_map b) in
+    (fst r, {| bv_id := bv_id b; bv_map := snd r |}).
+
+  Definition s_step (st : list bmv) (op : s_op) : list bmv :=
+    match op with
+    | SOUpdate i k vo => match nth_error st i with Some b => set_nth i (snd (bv_update k vo b)) st | None => st end
+    | SODup i => match nth_error st i with Some b => st ++ [b] | None => st end
+    | SODrop i => del_nth i st
+    end.
+
+  Definition bv_get (k : K) (b : bmv) : option V := bm_get eqb kh (chain (bv_id b)) k (bv_map b).
+  Definition bv_mem (k : K) (b : bmv) : bool := bm_mem eqb kh (chain (bv_id b)) k (bv_map b).
+
+  (* the reference: one dictionary per slot, copied by DUP, each layered over its own id's content *)
+  Definition sdict : Type := Z * (K -> option V).
+  Definition sd_init (id : Z) (lit : list (K * V)) : sdict := (id, eff0 eqb kh (chain id) lit).
+  Definition sd_step (sp : list sdict) (op : s_op) : list sdict :=
+    match op with
+    | SOUpdate i k vo => match nth_error sp i with Some d => set_nth i (fst d, d_update eqb k vo (snd d)) sp | None => sp end
+    | SODup i => match nth_error sp i with Some d => sp ++ [d] | None => sp end
+    | SODrop i => del_nth i sp
+    end.
+End Store.
+
+Arguments bv_id {K V} b.
+Arguments bv_map {K V} b.
+Arguments Build_bmv {K V} bv_id bv_map.
+Arguments set_nth {A} i x l.
+Arguments del_nth {A} i l.
+Arguments SOUpdate {K V} i k vo.
+Arguments SODup {K V} i.
+Arguments SODrop {K V} i.
+Arguments bv_update {K V H} eqb ltb kh chain k vo b.
+Arguments s_step {K V H} eqb ltb kh chain st op.
+Arguments bv_get {K V H} eqb kh chain k b.
+Arguments bv_mem {K V H} eqb kh chain k b.
+Arguments sd_init {K V H} eqb kh chain id lit.
+Arguments sd_step {K V} eqb sp op.
+
+(* ---- script form for the correspondence run *)
+Inductive xs_instr :=
+| XUpdate (i : nat) (k : val) (vo : option Z)
+| XGetAndUpdate (i : nat) (k : val) (vo : option Z)
+| XGet (i : nat) (k : val)
+| XMem (i : nat) (k : val)
+| XDup (i : nat)
+| XDrop (i : nat).
+
+Fixpoint lookup_chain (tbl : list (Z * list (bytes * Z))) (id : Z) (h : bytes) : option Z :=
+  match tbl with
+  | [] => None
+  | (id', t) :: r => if Z.eqb id' id then lookup_hash t h else lookup_chain r id h
+  end.
+
+Section XScript.
+  Variable T : texts.
+  Variable khtbl : list (val * bytes).
+  Variable chains : list (Z * list (bytes * Z)).
+  Let eqb := py_eq T.
+  Let ltb := py_lt T.
+  Let kh := lookup_val khtbl.
+  Let chain := lookup_chain chains.
+
+  Definition xs_op (i : xs_instr) : option (s_op val Z) :=
+    match i with
+    | XUpdate s k vo => Some (SOUpdate s k vo)
+    | XGetAndUpdate s k vo => Some (SOUpdate s k vo)
+    | XDup s => Some (SODup s)
+    | XDrop s => Some (SODrop s)
+    | _ => None
+    end.
+
+  Definition xs_obs (st : list (bmv val Z)) (i : xs_instr) : list bm_obs :=
+    match i with
+    | XGetAndUpdate s k vo => match nth_error st s with Some b => [BOOpt (fst (bv_update eqb ltb kh chain k vo b))] | None => [] end
+    | XGet s k => match nth_error st s with Some b => [BOOpt (bv_get eqb kh chain k b)] | None => [] end
+    | XMem s k => match nth_error st s with Some b => [BOBool (bv_mem eqb kh chain k b)] | None => [] end
+    | _ => []
+    end.
+
+  Fixpoint xs_script (st : list (bmv val Z)) (is : list xs_instr) : list bm_obs * list (bmv val Z) :=
+    match is with
+    | [] => ([], st)
+    | i :: r =>
+        let st' := match xs_op i with Some o => s_step eqb ltb kh chain st o | None => st end in
+        let res := xs_script st' r in
+        (xs_obs st i ++ fst res, snd res)
+    end.
+End XScript.
+
+(* one run: observations in order, and for every big_map value left at the end its id and its diff *)
+Definition xs_case_out : Type := list bm_obs * list (Z * list (val * bytes * Z) * list (val * bytes)).
+
+Definition xs_case (x : text_tables * list (val * bytes) * list (Z * list (bytes * Z)) * list (Z * list (val * Z)) * list xs_instr)
+  : xs_case_out :=
+  let '(tb, khtbl, chains, init, is) := x in
+  let st0 := map (fun il => {| bv_id := fst il; bv_map := bm_init (snd il) |}) init in
+  let res := xs_script (texts_of tb) khtbl chains st0 is in
+  (fst res,
+   map (fun b => (bv_id b,
+                  map (fun kv => (fst kv, lookup_val khtbl (fst kv), snd kv)) (bm_items (bv_map b)),
+                  map (fun k => (k, lookup_val khtbl k)) (bm_removed (bv_map b)))) (snd res)).
+
+Definition xs_slot_eqb (a b : Z * list (val * bytes * Z) * list (val * bytes)) : bool :=
+  let '(ia, i1, r1) := a in let '(ib, i2, r2) := b in
+  Z.eqb ia ib &&
+  list_eqb (fun x y => val_eqb (fst (fst x)) (fst (fst y)) && bytes_eqb (snd (fst x)) (snd (fst y)) && Z.eqb (snd x) (snd y)) i1 i2 &&
+  Nat.eqb (length r1) (length r2) && sub_list r1 r2 && sub_list r2 r1.
+
+Definition xs_case_eqb (a b : xs_case_out) : bool :=
+  list_eqb bm_obs_eqb (fst a) (fst b) && list_eqb xs_slot_eqb (snd a) (snd b).
